@@ -35,7 +35,8 @@ def isoOfName (s : String) : Except String Iso :=
 def unOfName (s : String) : Except String UnK :=
   match s with
   | "neg" => pure .neg | "not" => pure .not | "isNull" => pure .isNull | "length" => pure .length | "upper" => pure .upper
-  | "lower" => pure .lower | "abs" => pure .abs | "year" => pure .year | "month" => pure .month | "day" => pure .day
+  | "lower" => pure .lower | "abs" => pure .abs | "sqrt" => pure .sqrt | "ln" => pure .ln | "exp" => pure .exp
+  | "sign" => pure .sign | "year" => pure .year | "month" => pure .month | "day" => pure .day
   | "extractYear" => pure .extractYear | "count" => pure .count | "sum" => pure .sum | "min" => pure .min | "max" => pure .max
   | "avg" => pure .avg | "sumOver" => pure .sumOver | "maxOver" => pure .maxOver | "countOver" => pure .countOver
   | "avgOver" => pure .avgOver
@@ -44,7 +45,7 @@ def unOfName (s : String) : Except String UnK :=
 def binOfName (s : String) : Except String BinK :=
   match s with
   | "add" => pure .add | "sub" => pure .sub | "mul" => pure .mul | "div" => pure .div | "intdiv" => pure .intdiv
-  | "mod" => pure .mod | "eq" => pure .eq | "neq" => pure .neq | "lt" => pure .lt | "le" => pure .le | "gt" => pure .gt
+  | "mod" => pure .mod | "pow" => pure .pow | "eq" => pure .eq | "neq" => pure .neq | "lt" => pure .lt | "le" => pure .le | "gt" => pure .gt
   | "ge" => pure .ge | "and" => pure .and | "or" => pure .or | "dpipe" => pure .dpipe | "like" => pure .like
   | "coalesce" => pure .coalesce | "nullif" => pure .nullif | "concat" => pure .concat
   | _ => throw ("bin " ++ s)
